@@ -37,8 +37,9 @@ ASSUMPTIONS = [
     "the expected TrustZone bytes are the database preset updated by the generated assignment, computed by the harness from the YAML file",
     "custom TrustZone is generated only for families whose database record has a TrustZone register file (lpc55s26/28 have none)",
 ]
-FLOORS = {"len%16!=0": 0.10, "signed": 0.15, "tz:custom": 0.08, "tail:reloc_footer": 0.04, "certv1": 0.05, "certv21": 0.05, "reloc>0": 0.01,
-          "chain_mixed": 0.01}
+# about one third of the smallest share seen in clean quick runs with seeds 1, 2, 3, 7, 1234 (see notes/c01-report.md)
+FLOORS = {"len%16!=0": 0.30, "len%16=0": 0.04, "len%512=0": 0.02, "signed": 0.20, "certv1": 0.07, "certv21": 0.05, "crc": 0.07, "encrypted": 0.015,
+          "tz:custom": 0.12, "tail:reloc_footer": 0.015, "reloc>0": 0.015, "chain_mixed": 0.02, "key_store:1": 0.012, "isk": 0.02}
 
 _CTX = {"work": None, "seed": 1, "tier": "quick"}
 
